@@ -361,6 +361,9 @@ func runC14(ctx *core.Ctx, idx int) *core.Result {
 	if idx%6 == 1 {
 		c14CLIGuarded(ctx, res, g)
 	}
+	if idx%16 == 5 {
+		c14ManyFiles(ctx, res, g, idx)
+	}
 	if n, first := raceReports(); n > racesBefore {
 		res.Violate("C14/data-race", fmt.Sprintf("%d new race detector report(s)\n%s", n-racesBefore, first), map[string]string{"p.patch": pt})
 	}
@@ -600,4 +603,100 @@ func c14CLIGuarded(ctx *core.Ctx, res *core.Result, g *gen.G) {
 		}
 		res.Sig("guarded", gi, "cli")
 	}
+}
+
+// c14ManyFiles: one invocation over many more files than the process may hold descriptors (RLIMIT_NOFILE 40): what
+// happens to a file must not depend on how many files were processed before it. Every file is compared with its
+// solo run without the limit.
+func c14ManyFiles(ctx *core.Ctx, res *core.Result, g *gen.G, idx int) {
+	r := g.R
+	base, _ := os.MkdirTemp(ctx.Tmp, "c14m")
+	defer os.RemoveAll(base)
+	pt := "# bumping\n@@\nvar x expression\n@@\n-bump(x)\n+bump(x + 1)\n"
+	os.WriteFile(filepath.Join(base, "p.patch"), []byte(pt), 0o644)
+	n := 100 + r.Intn(60)
+	var names, files []string
+	for i := 0; i < n; i++ {
+		var src string
+		switch r.Intn(8) {
+		case 0:
+			src = fmt.Sprintf("package p\n\nfunc broken%d( {\n", i)
+		case 1:
+			src = fmt.Sprintf("// Code generated by tool. DO NOT EDIT.\n\npackage p\n\nvar g%d = bump(%d)\n", i, i)
+		case 2:
+			src = fmt.Sprintf("package p\n\nvar n%d = other(%d)\n", i, i)
+		default:
+			src = fmt.Sprintf("package p\n\nfunc f%d() int {\n\treturn bump(%d) + bump(v%d)\n}\n", i, i, i)
+		}
+		names = append(names, fmt.Sprintf("d%d/f%03d.go", i%4, i))
+		files = append(files, src)
+	}
+	mode := []string{"inplace", "--diff", "--print-only"}[(idx/16)%3]
+	run := func(sub string, idxs []int, args []string, env []string) (map[int]string, *core.CLIResult) {
+		d := filepath.Join(base, sub)
+		for _, i := range idxs {
+			os.MkdirAll(filepath.Dir(filepath.Join(d, names[i])), 0o755)
+			os.WriteFile(filepath.Join(d, names[i]), []byte(files[i]), 0o644)
+		}
+		a := []string{"-p", "../p.patch", "--skip-generated"}
+		if mode != "inplace" {
+			a = append(a, mode)
+		}
+		cr := ctx.RunCLI(core.CLIOpts{Dir: d, Args: append(a, args...), Env: env})
+		res.Ob("cli-runs", 1)
+		out := map[int]string{}
+		for _, i := range idxs {
+			b, _ := os.ReadFile(filepath.Join(d, names[i]))
+			out[i] = string(b)
+		}
+		return out, cr
+	}
+	var all []int
+	for i := range files {
+		all = append(all, i)
+	}
+	// reference: the same run without a descriptor limit, and solo runs of a sample
+	ref, refCr := run("ref", all, []string{"."}, nil)
+	if cc := refCr.CrashClass(); cc != "" {
+		res.Violate("C14/"+cc, string(refCr.Stderr), map[string]string{"p.patch": pt})
+		return
+	}
+	lim, limCr := run("lim", all, []string{"."}, []string{"VERIF_LIMEXEC_NOFILE=40"})
+	res.Evals++
+	if cc := limCr.CrashClass(); cc != "" {
+		res.Violate("C14/"+cc, string(limCr.Stderr), map[string]string{"p.patch": pt})
+		return
+	}
+	rep := map[string]string{"p.patch": pt, "stderr.txt": string(limCr.Stderr), "names.txt": strings.Join(names, "\n")}
+	for _, i := range all {
+		if lim[i] != ref[i] {
+			rep["in.go"], rep["expected.go"], rep["actual.go"] = files[i], ref[i], lim[i]
+			res.Violate("C14/result-depends-on-number-of-files-before", fmt.Sprintf("[%s] %d files in one run with 40 descriptors: %s differs from the run without a limit: %s", mode, n, names[i], core.Trunc(lastLines(string(limCr.Stderr), 2), 300)), rep)
+			return
+		}
+	}
+	if string(limCr.Stdout) != string(refCr.Stdout) || limCr.Exit != refCr.Exit {
+		res.Violate("C14/result-depends-on-number-of-files-before", fmt.Sprintf("[%s] %d files in one run with 40 descriptors: exit %d vs %d, stdout differs=%v: %s", mode, n, limCr.Exit, refCr.Exit, string(limCr.Stdout) != string(refCr.Stdout), core.Trunc(lastLines(string(limCr.Stderr), 2), 300)), rep)
+		return
+	}
+	// the last files of the run, alone
+	for _, i := range all[len(all)-3:] {
+		solo, cr := run(fmt.Sprintf("solo%d", i), []int{i}, []string{names[i]}, nil)
+		if cr.CrashClass() == "" && solo[i] != lim[i] {
+			rep["in.go"], rep["expected.go"], rep["actual.go"] = files[i], solo[i], lim[i]
+			res.Violate("C14/grouped-result-differs-from-solo", fmt.Sprintf("[%s] %s as the %dth file of a run differs from its solo run", mode, names[i], i+1), rep)
+			return
+		}
+	}
+	res.Ob("many-file-runs-under-descriptor-limit", 1)
+	res.Ob("files-in-many-file-runs", n)
+	res.Sig("many-files", mode, n)
+}
+
+func lastLines(s string, k int) string {
+	l := strings.Split(strings.TrimSpace(s), "\n")
+	if len(l) > k {
+		l = l[len(l)-k:]
+	}
+	return strings.Join(l, " | ")
 }
